@@ -14,16 +14,16 @@ STAGE_PROPS = {
  'recv':    'C03 C06 C11 C12 C16 C20',
  'errs':    'C03 C07 C08 C12 C13 C16 C20',
  'proc':    'C03 C06 C14 C16 C20',
- 'filter':  'C03',
+ 'filter':  'C01 C02 C03',
  'result':  'C03 C06 C08 C09 C10 C11 C12 C14 C16 C20',
- 'log':     'C03 C08 C09 C10 C11 C12 C13 C14 C16 C20',
+ 'log':     'C03 C06 C08 C09 C10 C11 C12 C13 C14 C16 C19 C20',
  'pktcmd':  'C01 C02 C03 C05 C07 C11 C12 C13 C14 C15 C16 C17',
  'appcmd':  'C01 C02 C08 C12 C13 C14 C15 C16',
  'engine':  'C01 C03 C07 C08 C09 C10 C11 C12 C13 C14 C15 C16 C19 C20',
  'app':     'C01 C02 C08 C09 C10 C12 C13 C15',
  'socks':   'C01 C02 C08 C09 C12 C14',
- 'docker':  'C01 C02 C08 C10 C14',
- 'elastic': 'C01 C02 C08 C10 C14',
+ 'docker':  'C01 C02 C08 C10 C12 C14',
+ 'elastic': 'C01 C02 C08 C10 C12 C14',
  'iface':   'C17 C05 C02 C11',
  'optplumb': 'C05 C18',
 }
@@ -54,11 +54,16 @@ RULES = [  # (package regex, function regex, stage)
  (r'pkg/scan$', r'resultChan|NewResultChan|engineResulter|NewEngineResulter', 'result'),
  (r'pkg/scan/(arp|tcp|udp|icmp)', r'\)\.Results', 'result'),
  (r'command/log', r'.', 'log'),
+ (r'command', r'getLogger', 'log'),
  (r'command', r'startScanEngine|startPortScanEngine|startPacketScanEngine|newEngineConfig|withExitDelay|withLogger', 'engine'),
  (r'pkg/scan$', r'GenericEngine|rateLimitScanner|NewRateLimitScanner|NewScanEngine|WithScanWorkerCount', 'app'),
  (r'command', r'genericScanCmdOpts\)\.newScanEngine', 'app'),
  (r'command', r'^new(ARP|ICMP|UDP|TCPFIN|TCPNULL|TCPXmas|TCPSYN|TCPFlags)Cmd\$1$|tcpSYNCmdOpts\)\.startScan$|newTCPScanMethod|newUDPScanMethod|newICMPScanMethod|newARPScanMethod|ipScanCmdOpts\)\.parseOptions|ipPortScanCmdOpts\)\.parseOptions', 'pktcmd'),
  (r'command', r'^new(Socks|Docker|Elastic)Cmd\$1$|newSOCKSScanEngine|newDockerScanEngine|newElasticScanEngine', 'appcmd'),
+ (r'pkg/scan/(arp|tcp|udp|icmp)', r'String|MarshalJSON|easyjson|\)\.ID$', 'proc'),
+ (r'pkg/scan/socks5', r'String|MarshalJSON|easyjson', 'socks'),
+ (r'pkg/scan/docker', r'String|MarshalJSON|easyjson', 'docker'),
+ (r'pkg/scan/elastic', r'String|MarshalJSON|easyjson', 'elastic'),
  (r'pkg/scan/socks5', r'^(?!.*(MarshalJSON|String)).*$', 'socks'),
  (r'pkg/scan/docker', r'^(?!.*(MarshalJSON|String)).*$', 'docker'),
  (r'pkg/scan/elastic', r'^(?!.*(MarshalJSON|String)).*$', 'elastic'),
